@@ -16,12 +16,12 @@ pub struct CheckDef {
 }
 
 pub const CHECKS: &[CheckDef] = &[
-    CheckDef { id: "C01", level: "exploration", rules: &["C01.", "CRASH."], quick_runs: 6000, thorough_runs: 200_000, nontrivial_rule: ">=2 subscriptions on one topic, >=1 pair of overlapping Publish calls on a topic, >=1 redelivery" },
+    CheckDef { id: "C01", level: "exploration", rules: &["C01.", "C14.retry", "CRASH."], quick_runs: 6000, thorough_runs: 200_000, nontrivial_rule: ">=2 subscriptions on one topic, >=1 pair of overlapping Publish calls on a topic, >=1 redelivery" },
     CheckDef { id: "C02", level: "exploration", rules: &["C02.", "C01.lost", "C01.redelivery", "C01.conservation", "CRASH."], quick_runs: 6000, thorough_runs: 200_000, nontrivial_rule: ">=1 acknowledgement that returned OK, followed by a clock advance, with >=1 other message on the subscription" },
     CheckDef { id: "C03", level: "exploration", rules: &["C03.", "C05.reject", "CRASH."], quick_runs: 6000, thorough_runs: 200_000, nontrivial_rule: ">=2 consumers had overlapping requests on one subscription, or >=1 redelivery was observed" },
     CheckDef { id: "C04", level: "exploration", rules: &["C04.", "C03.ackid", "C03.double", "C06.quiescent", "CRASH."], quick_runs: 8000, thorough_runs: 300_000, nontrivial_rule: "sequential lease run with >=1 redelivery after expiry (a probe on the late side saw the message again)" },
     CheckDef { id: "C05", level: "exploration", rules: &["C05.", "C03.double", "CRASH."], quick_runs: 8000, thorough_runs: 300_000, nontrivial_rule: "sequential lease run with >=1 ModifyAckDeadline naming an outstanding delivery" },
-    CheckDef { id: "C06", level: "exploration", rules: &["C06.", "CRASH."], quick_runs: 6000, thorough_runs: 200_000, nontrivial_rule: ">=1 parked blocking Pull or stream received messages that became available while it was parked" },
+    CheckDef { id: "C06", level: "exploration", rules: &["C06.", "C04.late", "C05.late", "CRASH."], quick_runs: 6000, thorough_runs: 200_000, nontrivial_rule: ">=1 parked blocking Pull or stream received messages that became available while it was parked" },
     CheckDef { id: "C07", level: "exploration", rules: &["C07.", "CRASH."], quick_runs: 5000, thorough_runs: 100_000, nontrivial_rule: "a mailbox was full when a request or a fan-out post was sent (probe mailbox_full_at_send / post_blocked_on_full_mailbox)" },
     CheckDef { id: "C08", level: "exploration", rules: &["C08.", "CRASH."], quick_runs: 6000, thorough_runs: 200_000, nontrivial_rule: ">=1 pair of overlapping Publish calls on one topic and >=2 subscriptions on a topic" },
     CheckDef { id: "C09", level: "exploration", rules: &["C09.", "CRASH."], quick_runs: 5000, thorough_runs: 150_000, nontrivial_rule: ">=1 redelivery and >=1 delivery by each of >=2 delivery paths" },
@@ -121,8 +121,11 @@ fn generate_family(id: &str, run_seed: u64, _thorough: bool) -> Plan {
                 f_general(run_seed, &full)
             } else if pick < 72 {
                 f_general(run_seed, &GeneralOpts { push: true, ..full })
-            } else if pick < 82 {
+            } else if pick < 76 {
                 f_lease(run_seed, &LeaseOpts { modacks: true, limits: true })
+            } else if pick < 80 {
+                // push subscriptions with failing / slow / silent endpoints, deleted and re-created
+                f_push(run_seed, false)
             } else if pick < 84 {
                 // racing creates / deletes of a few names, with publishes and a final drain
                 f_names(run_seed, 1 + pick % 3, false)
@@ -167,6 +170,9 @@ fn generate_family(id: &str, run_seed: u64, _thorough: bool) -> Plan {
             } else if pick < 50 {
                 // push deliveries whose endpoint answers slowly or never: not POSTed again inside the lease
                 f_push(run_seed, false)
+            } else if pick < 56 {
+                // pages of several MiB / several thousand messages
+                f_bigbatch(run_seed)
             } else if pick < 90 {
                 f_general(run_seed, &GeneralOpts { deletes: false, push: pick >= 75, ..full })
             } else {
@@ -186,6 +192,9 @@ fn generate_family(id: &str, run_seed: u64, _thorough: bool) -> Plan {
                 // consumers that go away while their pull is being answered: what they were handed is
                 // redelivered at its deadline, once, and not before
                 f_consumers(run_seed, true)
+            } else if pick < 60 {
+                // several leases with different deadlines, one of them moved, then only a parked consumer
+                f_timer(run_seed)
             } else {
                 f_lease(run_seed, &LeaseOpts { modacks: false, limits: pick < 50 })
             }
@@ -195,6 +204,8 @@ fn generate_family(id: &str, run_seed: u64, _thorough: bool) -> Plan {
                 f_lease_stream(run_seed)
             } else if pick < 26 {
                 f_edge(run_seed)
+            } else if pick < 32 {
+                f_timer(run_seed)
             } else {
                 f_lease(run_seed, &LeaseOpts { modacks: true, limits: false })
             }
@@ -205,9 +216,13 @@ fn generate_family(id: &str, run_seed: u64, _thorough: bool) -> Plan {
             } else if pick < 77 {
                 // a slow StreamingPull client (full response window) next to waiting consumers
                 f_stalled(run_seed)
-            } else if pick < 88 {
+            } else if pick < 83 {
                 // a request that is handled in the same actor wake-up as a lease expiry
                 f_edge(run_seed)
+            } else if pick < 88 {
+                // leases with different / moved deadlines and nothing but a parked consumer: it is
+                // woken at every expiry
+                f_timer(run_seed)
             } else {
                 f_consumers_saturated(run_seed)
             }
